@@ -98,7 +98,10 @@ def run_fit(spec, res):
         t = np.array([rng.uniform(-mag, mag) for _ in range(3)])
         Q = P @ R.T + t
         want = R @ x + t
-        got = np.array(quatfit.find_coordinates(len(P), Q.tolist(), P.tolist(), x.tolist()))
+        # the caller's list objects are kept and re-used below, as code that places several atoms from one collected
+        # template / structure pair does
+        Ql, Pl, xl = Q.tolist(), P.tolist(), x.tolist()
+        got = np.array(quatfit.find_coordinates(len(P), Ql, Pl, xl))
         res.count("fit_calls")
         err = float(np.linalg.norm(got - want))
         # off-plane distance of x (mirror-sensitive)
@@ -114,10 +117,21 @@ def run_fit(spec, res):
             res.violate(f"fit/{kind}", f"find_coordinates off by {err:.3e} A ({rc},{tc},{src},n={len(P)})",
                         P=P.tolist(), Q=Q.tolist(), x=x.tolist(), got=got.tolist(), want=want.tolist())
             continue
+        if k % 3 == 0:
+            # second placement from the very same list objects must reproduce the first
+            again = np.array(quatfit.find_coordinates(len(P), Ql, Pl, xl))
+            res.count("repeat_calls_same_lists")
+            e_again = float(np.linalg.norm(again - want))
+            if e_again > 1e-6:
+                res.violate("fit/second-call-on-same-lists-differs", f"calling find_coordinates again with the same list "
+                            f"objects is off by {e_again:.3e} A (first call {err:.1e})", P=P.tolist(), Q=Q.tolist(),
+                            x=x.tolist())
+                continue
         if k % 4 == 0:
             R2 = rigid.random_rotation(rng)
             t2 = np.array([rng.uniform(-100, 100) for _ in range(3)])
-            got2 = np.array(quatfit.find_coordinates(len(P), (Q @ R2.T + t2).tolist(), P.tolist(), x.tolist()))
+            # the template list object is re-used for the moved structure
+            got2 = np.array(quatfit.find_coordinates(len(P), (Q @ R2.T + t2).tolist(), Pl, xl))
             res.count("equivariance_checks")
             e2 = float(np.linalg.norm(got2 - (R2 @ got + t2)))
             if e2 > 2e-6:
